@@ -919,12 +919,20 @@ class SymTod:
     __slots__ = ('t',)
 
     def __init__(self, t):
-        self.t = t if isinstance(t, z3.ExprRef) else z3.RealVal(t)
+        self.t = t if isinstance(t, z3.ExprRef) else z3.RealVal(repr(float(t)) if isinstance(t, float) else t)
 
     def _c(self, o, f):
+        import datetime as _dt
+        if isinstance(o, _dt.time):
+            o = SymTod(o.hour * 3600 + o.minute * 60 + o.second + o.microsecond / 1e6)
         if not isinstance(o, SymTod):
             raise Unmodelled('time-of-day compared with %r' % type(o))
-        return SymBool(f(self.t, o.t))
+        r = z3.simplify(f(self.t, o.t))
+        if z3.is_true(r):
+            return True
+        if z3.is_false(r):
+            return False
+        return SymBool(r)
 
     def __lt__(self, o): return self._c(o, lambda a, b: a < b)
     def __le__(self, o): return self._c(o, lambda a, b: a <= b)
